@@ -26,6 +26,17 @@ type verifStrict struct {
 	Name string `query:"name" form:"name" json:"name" xml:"name" validate:"required"`
 }
 
+// verifOrder declares no rule itself: its rules sit on the elements of a slice field.
+type verifItem struct {
+	SKU string `query:"sku" form:"sku" json:"sku" xml:"sku" validate:"required|minLen:3"`
+	Qty int    `query:"qty" form:"qty" json:"qty" xml:"qty" validate:"required|min:1"`
+}
+
+type verifOrder struct {
+	ID    int         `query:"id" form:"id" json:"id" xml:"id"`
+	Items []verifItem `query:"items" form:"items" json:"items" xml:"items"`
+}
+
 type verifBody struct{ r *strings.Reader }
 
 func (b *verifBody) Read(p []byte) (int, error) { return b.r.Read(p) }
@@ -118,12 +129,18 @@ func verifHarness_C18_auto() {
 	}
 	var obj verifUser
 	var strictObj verifStrict
+	// an order whose only item breaks the element rules; nothing in an empty source overwrites it
+	order := verifOrder{ID: 1, Items: []verifItem{{SKU: "x", Qty: 0}}}
+	useOrder := emptySrc && verifChoice("order", 2) == 1
 	verifEventsReset()
 	var err error
 	k := verifCatch(func() {
-		if emptySrc {
+		switch {
+		case useOrder:
+			err = Auto(req, &order)
+		case emptySrc:
 			err = Auto(req, &strictObj)
-		} else {
+		default:
 			err = Auto(req, &obj)
 		}
 	})
@@ -187,8 +204,18 @@ func verifHarness_C18_auto() {
 	}
 	if err == nil && want != "error" {
 		if validator {
-			verifAssert(nVal == 1, "a successful bind implies the value passed validation")
-			verifAssert(verifEventKind(verifEventCount()-1) == "Validate", "validation runs after decoding")
+			if emptySrc {
+				// the bound type declares rules (on itself or on the elements of a slice field):
+				// the validator must have been asked, and it was the last thing to happen
+				verifAssert(nVal == 1, "a successful bind implies the value passed validation")
+				verifAssert(verifEventKind(verifEventCount()-1) == "Validate", "validation runs after decoding")
+			} else {
+				// a type without any rule passes trivially; if the validator is asked, it is asked once, after decoding
+				verifAssert(nVal <= 1, "the validator is asked at most once")
+				if nVal == 1 {
+					verifAssert(verifEventKind(verifEventCount()-1) == "Validate", "validation runs after decoding")
+				}
+			}
 			verifCover("C18 validated")
 		} else {
 			verifAssert(nVal == 0, "no validation when the validator is disabled")
